@@ -291,3 +291,7 @@ REGISTRY['C20'] = lambda cx, replay=None: regexcheck.c20(cx)
 import metachecks
 REGISTRY['C14'] = lambda cx, replay=None: metachecks.c14(cx)
 REGISTRY['C15'] = lambda cx, replay=None: metachecks.c15(cx)
+
+
+import groupcheck
+REGISTRY['C13'] = lambda cx, replay=None: groupcheck.c13(cx)
